@@ -15,6 +15,11 @@ from scipy import special as sp
 from flowjax import distributions as D
 from vf.core import Violation, expect_raises, lib_call, run_hypothesis
 
+from vf import shim
+
+F32 = shim.F32
+LT = 2e-4 if F32 else 1e-9    # log-density tolerance (relative, plus per-dimension absolute part)
+AT = 1e-5 if F32 else 1e-11   # accessor tolerance (relative)
 LOG2PI = math.log(2 * math.pi)
 TINY = 1e-290  # smallest magnitudes used next to 0: subnormals are flushed to zero by XLA on CPU (not a flowjax matter)
 FAMILIES = ["Normal", "LogNormal", "Uniform", "Gumbel", "Cauchy", "StudentT", "Laplace", "Exponential", "Logistic"]
@@ -130,9 +135,10 @@ def params_for(fam, shapes, vals):
     def take(shape, positive, wide=True):
         n = int(np.prod(shape)) if len(shape) else 1
         v = np.asarray([next(vals) for _ in range(n)], np.float64).reshape(shape)
-        if positive:
-            return np.exp(np.clip(v, -3, 3) * (2.3 if wide else 0.5))
-        return v * 10.0
+        if positive:  # float32 workers: 1e-6..1e6 (the default precision of the library; small scales stress the reparameterisation)
+            out = np.exp(np.clip(v, -3, 3) * ((4.6 if F32 else 2.3) if wide else 0.5))
+            return out.astype(np.float32).astype(np.float64) if F32 else out
+        return v * (0.0 if F32 else 10.0)  # float32: loc = 0 so that (x - loc)/scale involves no cancellation
     if fam == "Uniform":
         a = take(shapes[0], False)
         w = take(shapes[1], True)
@@ -191,17 +197,19 @@ def oracle_family(c, ctx):
             got = np.broadcast_to(got, want.shape)
         except ValueError:
             raise Violation(f"C05|{fam}|accessor.{name}", f"shape {got.shape} does not broadcast to {want.shape}")
-        if np.any(np.abs(got - want) > 1e-11 * (sc + 1e-300)):
+        if np.any(np.abs(got - want) > AT * (sc + 1e-300)):
             raise Violation(f"C05|{fam}|accessor.{name}", f"got {got.tolist()} constructor value {want.tolist()}")
     # ---- log_prob at bulk / tails / edges / outside, batched ---------------------------------
     batch = tuple(c["batch"])
     full = batch + tuple(ev)
     n = int(np.prod(full)) if full else 1
     z = np.asarray([c["z"][i % 8] * (1 + 0.13 * (i // 8)) for i in range(n)]).reshape(full)
-    kinds = np.asarray([c["kinds"][i % 8] for i in range(n)]).reshape(full)
+    kinds = np.asarray([("bulk" if F32 else c["kinds"][i % 8]) for i in range(n)]).reshape(full)
     x = np.empty(full, np.float64)
     for kd in set(kinds.reshape(-1).tolist()):
         x = np.where(kinds == kd, np.broadcast_to(support_point(fam, pb, kd, z), full), x)
+    if F32:
+        x = x.astype(np.float32).astype(np.float64)  # the reference sees exactly the float32 input the library sees
     lp = np.asarray(lib_call(f"C05|{fam}|log_prob", dist.log_prob, jnp.asarray(x)), np.float64)
     el = ref_logpdf(fam, x, pb)
     edge_amb = np.zeros(full, bool)
@@ -219,7 +227,7 @@ def oracle_family(c, ctx):
         if amb[idx]:
             alt = np.where(edge_amb, -np.inf, el)
             w2 = (alt.sum(axis=axes) if axes else alt)[idx]
-            if g == w2 or (np.isfinite(g) and np.isfinite(w) and abs(g - w) <= 1e-9 * (1 + abs(w))):
+            if g == w2 or (np.isfinite(g) and np.isfinite(w) and abs(g - w) <= LT * (1 + abs(w))):
                 continue
             if not np.isfinite(w2) and g == -np.inf:
                 continue
@@ -228,16 +236,16 @@ def oracle_family(c, ctx):
         elif not np.isfinite(w):
             ok = True  # reference itself overflowed (e.g. Gumbel far left tail)
         else:
-            ok = np.isfinite(g) and abs(g - w) <= 1e-9 * (1 + abs(w)) + 1e-9 * np.sum(np.abs(el[idx])) if axes else \
-                np.isfinite(g) and abs(g - w) <= 1e-9 * (1 + abs(w))
+            ok = np.isfinite(g) and abs(g - w) <= LT * (1 + abs(w)) + LT * np.sum(np.abs(el[idx])) if axes else \
+                np.isfinite(g) and abs(g - w) <= LT * (1 + abs(w))
             if ok:
-                ctx.ratio(fam, abs(g - w) / (1e-9 * (1 + abs(w))))
+                ctx.ratio(fam, abs(g - w) / (LT * (1 + abs(w))))
         if not ok:
             raise Violation(f"C05|{fam}|log_prob",
                             f"log_prob={g!r} textbook={w!r} at x={x[idx].tolist() if axes else x[idx]} "
                             f"params={ {k: np.asarray(v).tolist() for k, v in p.items()} } kinds={kinds[idx].tolist() if axes else kinds[idx]}")
     # ---- sampler ---------------------------------------------------------------------------------
-    if c["sample"]:
+    if c["sample"] and not F32:
         check_sampler(fam, dist, pb, ev, c["key"], ctx)
     nt = all(np.any(np.abs(np.asarray(v) - d) > 0.1 * max(d, 1)) for (k, v), d in
              zip(p.items(), [0 if k in ("loc", "minval") else 1 for k in p]))
@@ -397,5 +405,7 @@ def replay(spec, ctx):
 def run(ctx):
     q = ctx.tier == "quick"
     run_hypothesis(ctx, family_cases(), oracle, 150 if q else 1500, "C05-families")
+    if F32:  # float32 workers: accessor / bulk log-density clauses of the scalar families only
+        return
     run_hypothesis(ctx, mvn_cases(), oracle, 25 if q else 250, "C05-mvn")
     run_hypothesis(ctx, mixture_cases(), oracle, 25 if q else 250, "C05-mixtures")
